@@ -263,12 +263,21 @@ where
                 let incarnation = tx_state.incarnation;
                 let dependency = tx_state.dependency;
                 tx_state.status = TransactionStatus::Finality;
+                vobs!(
+                    FINALIZED,
+                    finality_idx,
+                    incarnation,
+                    self.scheduler_ctx.unconfirmed_timestamp(finality_idx),
+                    effective_lower_ts
+                );
                 drop(tx_state);
 
                 let next_finality_idx = finality_idx + 1;
+                vpoint!(FINALITY_PUBLISH);
                 self.scheduler_ctx.publish_finality(next_finality_idx);
                 if finality_idx == previous_finality_idx {
                     // Start commit as soon as the first transaction in this batch is visible.
+                    vpoint!(FINALITY_NOTIFY);
                     self.commit_wait.notify();
                 }
 
@@ -284,6 +293,7 @@ where
                 if finality_idx - previous_finality_idx > 1 {
                     // Commit may have caught the first notification while this batch was still
                     // publishing. Wake it once more for the completed suffix.
+                    vpoint!(FINALITY_NOTIFY);
                     self.commit_wait.notify();
                 }
                 thread::yield_now();
@@ -313,12 +323,14 @@ where
         finality_idx: usize,
         lower_ts: usize,
     ) -> Option<(MutexGuard<'_, TxState>, usize)> {
+        vpoint!(FINALITY_READ);
         if finality_idx >= self.block_size || finality_idx >= self.scheduler_ctx.validation_idx() {
             return None;
         }
         // Read the validation frontier first, then decide status and timestamp eligibility under
         // the transaction lock. Together with contiguous finality, this prevents a candidate from
         // passing a rewind that invalidates it or an earlier transaction.
+        vpoint!(FINALITY_LOCK);
         let tx_state = self.tx_states[finality_idx].lock();
         if tx_state.status != TransactionStatus::Unconfirmed {
             return None;
@@ -343,6 +355,7 @@ where
         while !self.is_aborted() && commit_idx < self.block_size {
             let previous_commit_idx = commit_idx;
             while commit_idx < self.scheduler_ctx.finality_idx() {
+                vpoint!(COMMIT_TAKE);
                 let Some(tx_result) = self.tx_results[commit_idx].lock().take() else {
                     self.abort(AbortReason::ParallelError {
                         txid: commit_idx,
@@ -367,14 +380,18 @@ where
                 match outcome {
                     Ok(CommitOutcome::Committed(committed)) => {
                         let next_commit_idx = committed.index();
+                        vpoint!(COMMIT_PUBLISH);
                         self.scheduler_ctx.publish_commit(next_commit_idx);
+                        vobs!(COMMIT_END, commit_idx, self.scheduler_ctx.committed_idx(), 0, 0);
                         // Publish committed state before releasing work that may require it.
+                        vpoint!(COMMIT_RELEASE);
                         self.tx_dependency.commit(commit_idx);
                         commit_idx = next_commit_idx;
                     }
                     Ok(CommitOutcome::NeedsSequentialFallback) => {
                         // The problematic transaction remains uncommitted. Keep the cursor at its
                         // index so sequential fallback revalidates it before processing the suffix.
+                        vobs!(COMMIT_FALLBACK, commit_idx, 0, 0, 0);
                         self.abort(AbortReason::FallbackSequential);
                         return CommitLoopResult { committed: output, error: None };
                     }
@@ -550,6 +567,7 @@ where
         WorkerDB: DatabaseRef<Error = DB::Error>,
     {
         let TxVersion { txid, incarnation } = tx_version.clone();
+        vpoint!(EXEC_BEGIN);
         let mut tx_state = self.tx_states[txid].lock();
         // Cursor claims are advisory and may become stale after a rewind. The locked status and
         // incarnation are the authority for whether this task may execute.
@@ -566,8 +584,10 @@ where
         self.metrics.record_execution_attempt();
 
         let tx_env = self.txs[txid].clone();
+        vobs!(INCARNATION_START, txid, incarnation, 0, 0);
         let IncarnationExecution { result, accesses } =
             executor.execute_incarnation(tx_version.clone(), tx_env);
+        vpoint!(EXEC_DONE);
 
         // If this incarnation expands its write set, already validated suffix transactions may
         // have missed a new predecessor and validation must rewind to this transaction. Existing
@@ -604,6 +624,7 @@ where
                     write_new_locations = true;
                 }
 
+                vpoint!(HISTORY_RECORD);
                 let history_published = if conflict {
                     beneficiary.record_estimate(&tx_version)
                 } else {
@@ -623,10 +644,12 @@ where
                     } else {
                         self.metrics.record_estimate_conflict();
                     }
+                    vpoint!(DEP_UPDATE);
                     self.tx_dependency.add(txid, self.latest_unfinalized_blocker(&blocking_txs));
                 } else {
                     // Clearing reverse edges may hand the immediate successor directly to this
                     // worker, avoiding a cursor round trip on a linear dependency chain.
+                    vpoint!(DEP_UPDATE);
                     next = self.tx_dependency.remove(txid, true);
                 }
                 *last_result = Some(TransactionResult {
@@ -648,6 +671,7 @@ where
                     write_set = std::mem::take(&mut last_result.write_set);
                     self.mark_mv_estimate(txid, &write_set);
                 }
+                vpoint!(HISTORY_RECORD);
                 if !beneficiary.record_estimate(&tx_version) {
                     self.abort(AbortReason::ParallelError {
                         txid,
@@ -667,9 +691,11 @@ where
                     } else {
                         self.metrics.record_estimate_conflict();
                     }
+                    vpoint!(DEP_UPDATE);
                     self.tx_dependency.add(txid, self.latest_unfinalized_blocker(&blocking_txs));
                 } else {
                     self.metrics.record_evm_error_conflict();
+                    vpoint!(ERROR_HEAD_CHECK);
                     if self.scheduler_ctx.committed_idx() == txid {
                         if invalid_transaction {
                             self.abort(AbortReason::FallbackSequential);
@@ -677,11 +703,14 @@ where
                             self.abort(AbortReason::FatalEvmError(txid));
                         }
                     }
+                    vpoint!(DEP_UPDATE);
                     self.tx_dependency.key_tx(txid, self.scheduler_ctx.commit_cursor());
                 }
             }
         }
 
+        vpoint!(EXEC_STATUS);
+        vobs!(INCARNATION_END, txid, incarnation, conflict as usize, 0);
         tx_state.status =
             if conflict { TransactionStatus::Conflict } else { TransactionStatus::Executed };
         self.scheduler_ctx.executed(txid);
@@ -737,6 +766,7 @@ where
 
         // Capture the timestamp before scanning. A concurrent later rewind then has a newer lower
         // bound and prevents this validation from reaching finality.
+        vpoint!(VALIDATE_TS);
         let ts = self.scheduler_ctx.logical_timestamp();
         // Every read must still resolve to the same latest preceding incarnation, and that write
         // must not be an estimate. A storage-origin read remains valid only when no preceding
@@ -744,6 +774,7 @@ where
         let mut conflict = false;
         let mut dependency: Option<TxId> = None;
         for (location, version) in result.read_set.iter() {
+            vpoint!(VALIDATE_PROBE);
             if let ReadVersion::Beneficiary(expected) = version {
                 let validation = beneficiary.validate(txid, expected);
                 if !validation.is_valid() {
@@ -778,6 +809,8 @@ where
                 conflict = true;
             }
         }
+        vpoint!(VALIDATE_VERDICT);
+        vobs!(VALIDATION, txid, incarnation, !conflict as usize, ts);
         if conflict {
             self.metrics.record_version_conflict();
             // Readers must not validate against writes produced by an invalid incarnation.
@@ -804,10 +837,12 @@ where
         if conflict {
             // update dependency
             let dep_tx = dependency.filter(|&dep| dep >= self.scheduler_ctx.finality_idx());
+            vpoint!(DEP_UPDATE);
             self.tx_dependency.add(txid, dep_tx);
         }
         drop(tx_result);
         drop(tx_state);
+        vpoint!(VALIDATE_NOTIFY);
         if txid == self.scheduler_ctx.finality_idx() {
             self.finality_wait.notify();
         }
@@ -830,6 +865,7 @@ where
     }
 
     fn execution_task(&self, execute_id: TxId) -> Option<Task> {
+        vpoint!(EXECUTION_CLAIMED);
         let mut tx = self.tx_states[execute_id].lock();
         match tx.status {
             TransactionStatus::Initial | TransactionStatus::Conflict => {
@@ -842,6 +878,7 @@ where
             TransactionStatus::Executing => None,
             _ => {
                 drop(tx);
+                vpoint!(DEP_UPDATE);
                 self.tx_dependency.remove(execute_id, false);
                 self.metrics.record_useless_dependency_update();
                 None
@@ -851,6 +888,7 @@ where
 
     fn next(&self) -> Option<Task> {
         while !self.scheduler_ctx.finished() && !self.is_aborted() {
+            vpoint!(WORKER_NEXT);
             if !self.scheduler_ctx.should_schedule(self.tx_dependency.index()) {
                 thread::yield_now();
             }
@@ -858,6 +896,7 @@ where
             if let Some(validation_idx) =
                 self.scheduler_ctx.next_validation_idx(self.tx_dependency.index())
             {
+                vpoint!(VALIDATION_CLAIMED);
                 let mut tx = self.tx_states[validation_idx].lock();
                 // Rewinds can make cursor claims duplicate or stale; state under this lock decides
                 // whether a validation task still exists.
